@@ -7,6 +7,7 @@ import (
 	"fmt"
 	"os"
 	"path/filepath"
+	"strings"
 
 	"github.com/quay/claircore/verifharness/internal/extract"
 )
@@ -15,7 +16,9 @@ func main() {
 	repo := flag.String("repo", "/repo", "repository root")
 	out := flag.String("out", "", "output directory")
 	shape := flag.String("shape", "", "write the per-file shape digests (JSON) to this path")
+	only := flag.String("only", "", "comma-separated generator names (development; default: all)")
 	flag.Parse()
+	defer extract.RxCleanup()
 	if *shape != "" {
 		m, err := extract.Shape(*repo)
 		if err != nil {
@@ -37,6 +40,9 @@ func main() {
 	}
 	failed := 0
 	for _, g := range extract.All() {
+		if *only != "" && !strings.Contains(","+*only+",", ","+g.Name+",") {
+			continue
+		}
 		txt, err := g.Run(*repo)
 		if err != nil {
 			fmt.Printf("EXTRACT-FAIL %s: %v\n", g.Name, err)
